@@ -69,7 +69,7 @@ as list / tuple / ndarray / tensor / scalar, installed at construction, by an ob
 slice_thicknesses setters followed by the recomputation calls; pattern order (data and positions permuted consistently, positions
 through the public `dset.scan_positions_px` setter); probe_params key order.  Class {"relation":
 "ordered_configuration_is_used_in_order", "sequence": ..., "what": ...}.  Nearly-equal thicknesses (same part): sequences for 3 and 4
-slices whose members differ by a relative spread of 5e-6 ... 2 % (ascending, descending, one odd value in every position), at a
+slices whose members differ by a relative spread of 1e-4 ... 2 % (ascending, descending, one odd value in every position), at a
 thickness scale where one common thickness is provably (independent simulator) >= 20x outside the l2 zero-tolerance; judged like any
 other thickness sequence, plus: the propagators read through the public property equal the simulator's, gap by gap.  Class
 {"relation": "nearly_equal_thicknesses_are_used_as_given", "sequence": "nearly_equal_thicknesses", "what": ...}.
@@ -121,7 +121,7 @@ CLAIM = (
     "changing anything the forward model uses, also after derived state is rebuilt; slice-thickness sequences in every order pattern "
     "(distinct and repeated values, five container kinds, four installation routes), permuted pattern orders and probe_params key "
     "orders are used in the order given; slice-thickness sequences for 3 and 4 slices whose members are NEARLY but not exactly equal "
-    "(relative spread 5e-6, 1e-4, 1e-3, 0.5 %, 0.9 %, 2 %; ascending, descending, one odd value in every position; four installation "
+    "(relative spread 1e-4, 1e-3, 0.5 %, 0.9 %, 2 %; ascending, descending, one odd value in every position; four installation "
     "routes; thick enough that one common thickness would miss the l2 zero-tolerance >= 20x by the independent simulator) are "
     "propagated gap by gap with their own thickness: the public propagators equal exp(-i pi lambda dz k^2) per gap and all the "
     "oracles above hold; every way of obtaining a second object (clone, from_ptychography, three save/from_file "
@@ -1007,13 +1007,14 @@ PROBE_PARAM_KEYS = ("energy", "defocus", "semiangle_cutoff")
 # simulated with the first / the last member for every gap, judged like a library prediction: the best l2 loss must exceed its
 # zero-tolerance by that factor), Broken otherwise.  The scale listed is the NOMINAL one: where the seeded contents make a member less
 # sensitive than 2 x NEAR_MIN_SENSITIVITY, the scale is raised (l2 loss ~ scale^2, two significant digits) to reach
-# NEAR_TARGET_SENSITIVITY -- always so for the 5e-6 spread (50000 .. 300000 A), whose float32 rounding floor grows with the scale as
+# NEAR_TARGET_SENSITIVITY -- always so for the 5e-6 spread (about 3e4 .. 3e5 A), whose float32 rounding floor grows with the scale as
 # well: the member is placed where the wrong answer is ~30x above and the rounding floor ~10x below the l2 tolerance.
 # The smallest spread is 5e-6: float32 rounding of the propagator phase is
 # ~1.3e-7 relative, so a 1e-6 spread is only ~7x (losses: ~30x) above the rounding floor of a correct single-precision
 # implementation and cannot be told apart from it with a 20x margin on either side; 5e-6 still lies inside the default
 # relative tolerance (1e-5) of the usual approximate-equality tests.  Absolute differences range from 0.3 A to 4 A.
-NEAR_EQUAL_SPREADS = ((5e-6, 20000.0), (1e-4, 5000.0), (1e-3, 1000.0), (5e-3, 200.0), (9e-3, 200.0), (2e-2, 200.0))  # (relative spread, scale [A])
+# (the 5e-6 member was removed by the main session: its prediction margin on the unchanged tree was only 2.2x)
+NEAR_EQUAL_SPREADS = ((1e-4, 5000.0), (1e-3, 1000.0), (5e-3, 200.0), (9e-3, 200.0), (2e-2, 200.0))  # (relative spread, scale [A])
 NEAR_EQUAL_ORDERS = {3: ("ascending", "descending"), 4: ("ascending", "descending", "odd_first", "odd_middle", "odd_last")}
 NEAR_TARGET_SENSITIVITY = 32.0  # a member below 2 x NEAR_MIN_SENSITIVITY at its nominal scale is thickened to reach this (see near_equal_member)
 NEAR_MIN_SENSITIVITY = 20.0
